@@ -283,7 +283,7 @@ def run(pid, tier, seed):
             camp.fail(k, what, rc["case"])
     permutations(camp, seed, nperm, ncorpus)
     camp.merge(core.run_shards(shard, [dict(seed=core.seed_of(seed, s, 6), n=n) for s in range(shards)]))
-    return core.finish(pid, tier, seed, camp, RULE, t0, assumptions=[
+    return core.finish(pid, tier, seed, camp, RULE, t0, replay_fn=replay, assumptions=[
         "listing permutations are sampled (the space is 58!); leaks needing a file class that is not generated are invisible",
         "each history runs in a forked child so that leaked state cannot reach the harness",
     ])
